@@ -90,18 +90,39 @@ def axisOfArg (len : Nat) : AxisArg → Except Err AxisSpec
   | .many l => .ok (.many (l.filterMap fun a =>
       if normAxis len a < 0 then Option.none else some (normAxis len a).toNat))
 
-/-- `_validate_axis_and_eps(x_shape, scale_axis, elements_per_scale)` (elements_per_scale not None) -/
+/-- Python's order on the tuples `(axis, elements_per_scale)` (lexicographic), as `sorted(zip(..))` uses it -/
+def pairLe (p q : Nat × Nat) : Bool := decide (p.1 < q.1) || (decide (p.1 = q.1) && decide (p.2 ≤ q.2))
+
+/-- insert one pair into an ascending list of pairs -/
+def insertPair (p : Nat × Nat) : List (Nat × Nat) → List (Nat × Nat)
+  | [] => [p]
+  | q :: qs => if pairLe p q then p :: q :: qs else q :: insertPair p qs
+
+/-- `sorted(zip(scale_axis, elements_per_scale))`: the (axis, elements) pairs in ascending order of the axes
+    (since the fix `the order of a scale_axis list is free`; a sorted list is unique, so HOW Python sorts does
+    not matter) -/
+def sortPairs : List (Nat × Nat) → List (Nat × Nat)
+  | [] => []
+  | p :: ps => insertPair p (sortPairs ps)
+
+/-- `_validate_axis_and_eps(x_shape, scale_axis, elements_per_scale)` (elements_per_scale not None).
+    Since the fix the list forms return the pairs sorted by axis: `_get_unrolled_shape` /
+    `_get_rolled_back_shape` shift every later axis by one per axis handled, i.e. need ascending axes, and the
+    grouping is a SET of (axis, elements) pairs. -/
 def validateAxisEps (shape : List Nat) (sa : AxisSpec) (eps : EpsSpec) : Except Err (List Nat × List Nat × Bool) :=
   -- result: (axes, factors, wasInt) — `wasInt` = both were ints (the int forms of the later helpers)
+  let sorted (l es : List Nat) : Except Err (List Nat × List Nat × Bool) :=
+    let ps := sortPairs (l.zip es)
+    .ok (ps.map (·.1), ps.map (·.2), false)
   match sa, eps with
   | .none, _ => .error .assert                       -- "scale_axis must be set if elements_per_scale is used."
   | .one a, .one e => if shape.getD a 0 % e = 0 then .ok ([a], [e], true) else .error .assert
   | .one _, .many _ => .error .valueError            -- "... which is ambigious."
   | .many l, .one e =>
-    if l.all (fun a => shape.getD a 0 % e = 0) then .ok (l, List.replicate l.length e, false) else .error .assert
+    if l.all (fun a => shape.getD a 0 % e = 0) then sorted l (List.replicate l.length e) else .error .assert
   | .many l, .many es =>
     if l.length ≠ es.length then .error .assert
-    else if (l.zip es).all (fun p => shape.getD p.1 0 % p.2 = 0) then .ok (l, es, false) else .error .assert
+    else if (l.zip es).all (fun p => shape.getD p.1 0 % p.2 = 0) then sorted l es else .error .assert
   | _, .none => .error .assert                       -- not reachable from _get_scale_mean
 
 /-- `_unroll_one_axis(shape, factor, axis)`: `shape[axis] //= factor; shape.insert(axis + 1, factor)` -/
@@ -110,7 +131,8 @@ def unrollOne (shape : List Nat) (factor axis : Nat) : List Nat :=
   s.take (axis + 1) ++ factor :: s.drop (axis + 1)
 
 /-- the list branch of `_get_unrolled_shape`: every axis is shifted by the number of axes already
-    inserted (the code adds `axis_shift` in list order, whatever the order of the list) -/
+    inserted (the code adds `axis_shift` in list order, whatever the order of the list — right for ascending
+    axes only, which is what `_validate_axis_and_eps` hands over since the fix) -/
 def unrollMany : List Nat → List Nat → List Nat → Nat → List Nat × List Nat
   | shape, a :: as, f :: fs, shift =>
     let r := unrollMany (unrollOne shape f (a + shift)) as fs (shift + 1)
